@@ -1,0 +1,14 @@
+//go:build verif
+
+package phase2
+
+// VerifNSExit, when set, is told how the pivot loop of the network simplex ended:
+// the balance mode (1: layering, 2: positioning), the number of pivots, the pivot budget,
+// and whether a tree edge with negative cut value was left.
+var VerifNSExit func(balance, pivots, maxitr int, negativeLeft bool)
+
+func verifNSExit(balance, pivots, maxitr int, negativeLeft bool) {
+	if VerifNSExit != nil {
+		VerifNSExit(balance, pivots, maxitr, negativeLeft)
+	}
+}
